@@ -256,6 +256,18 @@ def check_history(tkey, hist):
     except Exception as e:
         return [], "rejected:" + type(e).__name__
     a_obs = observe_module(A)
+    # a twin with the same history that nobody has looked at before it is saved (A was read by the harness, and reading
+    # may complete lazily built tables): what an object writes must not depend on who looked at it
+    try:
+        tw = deviate.new_module(tkey)
+        for op in hist:
+            apply_inplace(tw, op)
+        b_tw = C.save(rv.Synth(tw))
+        if b_tw != a_obs[1]:
+            vs.append(C.viol("bytes-depend-on-whether-the-object-was-read-first", key("unobserved-twin", "bytes"),
+                             {"first_difference": C.first_byte_diff(b_tw, a_obs[1])}, case))
+    except Exception:
+        pass
     for origin, B in (("independent", B_ind), ("clone", B_clone), ("loaded", B_load)):
         now = observe_module(B)
         d = S.diff(obs[origin][0], now[0])
@@ -347,6 +359,7 @@ def container_histories():
         [{"c": "pattern_attr"}], [{"c": "module_ctl"}], [{"c": "new_module"}, {"c": "connect"}],
         [{"c": "pattern"}, {"c": "note"}], [{"c": "attach_none"}], [{"c": "clone_note"}],
         [{"c": "cross_connect"}], [{"c": "connect"}, {"c": "cross_connect"}], [{"c": "cross_attach"}],
+        [{"c": "note_clone_transplant"}], [{"c": "note"}, {"c": "note_clone_transplant"}],
     ]
 
 
@@ -409,6 +422,28 @@ def check_container(hist):
                         attempt()
                     except Exception:
                         pass
+        elif c == "note_clone_transplant":
+            # clone() of the SMALLEST object: a note cloned out of each other project's pattern is put (plain item
+            # assignment) into A's pattern and then used through its owner-relative accessors -- whatever they resolve
+            # to must not be anything owned by the project the note was cloned from
+            for origin, other in (("independent", B), ("clone", Bc), ("loaded", Bl)):
+                src = other.patterns[0].data[1][0]
+                cl = src.clone()
+                cl.module = 2                       # names module 1 of whatever project it resolves in
+                A.patterns[0].data[1][0] = cl
+                for acc in ("pattern", "project", "mod"):
+                    try:
+                        got = getattr(cl, acc)
+                    except Exception:
+                        continue
+                    owner = got if acc == "project" else getattr(got, "project", None) if acc == "pattern" else getattr(got, "parent", None)
+                    if got is not None and (got is other or owner is other):
+                        vs.append(C.viol("clone-still-tied-to-original", {"type": "Note", "op": opk, "origin": origin, "what": acc}, {}, case))
+                    if acc == "mod" and got is not None:
+                        try:
+                            got.volume = 7
+                        except Exception:
+                            pass
         elif c == "clone_note":
             P_free.data[0][0].note = rv.NOTECMD.C5
             P_free.data[0][0].vel = 100
